@@ -7,7 +7,10 @@ PROP=$(python3 -c "import json;print(json.load(open('$D/meta.json'))['property']
 cd /repo || exit 3
 if [ -n "$(git status --porcelain --untracked-files=no)" ]; then echo "/repo not clean"; exit 3; fi
 git apply $D/patch.diff || { echo "patch does not apply"; exit 3; }
+cp /verif/evidence/$PROP.json /tmp/evidence_$PROP.keep 2>/dev/null
 cd /verif && ./check $PROP --tier $TIER > /tmp/seedtest_$ID.log 2>&1; RC=$?
 git -C /repo checkout -- . 
+# the evidence file written by this run describes the seeded tree: put the clean-tree evidence back
+[ -f /tmp/evidence_$PROP.keep ] && mv /tmp/evidence_$PROP.keep /verif/evidence/$PROP.json
 echo "SEED $ID property=$PROP exit=$RC"; grep -E "VIOLATION|UNDECIDED|TOOL-FAILURE|failed obligation" /tmp/seedtest_$ID.log | cut -c1-220 | head -8
 exit 0
